@@ -296,6 +296,39 @@ def op_sample_model(which):
     return run
 
 
+def op_sample_vi_stub(seed, variant, tmp):
+    """sampling.sample's variational branch with a stub VIModel that draws from the generator it is handed."""
+    from batchie.core import BayesianModel, VIModel
+
+    class StubVI(BayesianModel, VIModel):
+        def __init__(self):
+            self._rng = None
+            self.n_reset = 0
+
+        def set_rng(self, rng):
+            self._rng = rng
+
+        @property
+        def rng(self):
+            return self._rng
+
+        def _add_observations(self, data):
+            pass
+
+        def n_obs(self):
+            return 0
+
+        def reset_model(self):
+            self.n_reset += 1
+
+        def sample(self, num_samples):
+            return [SparseDrugComboMCMCSample(W=self._rng.normal(size=(2, 2)), W0=np.zeros(2), V2=np.zeros((2, 2)), V1=np.zeros((2, 2)),
+                                              V0=np.zeros(2), alpha=float(self._rng.random()), precision=1.0) for _ in range(num_samples)]
+
+    res = sampling.sample(StubVI(), ThetaHolder(n_thetas=2 + variant), seed=seed)
+    return _theta_bytes(res)
+
+
 def cli_prepare(with_initial):
     def run(seed, variant, tmp):
         screen = input_screen(variant, all_observed=True)
@@ -391,6 +424,7 @@ def operations(tier):
     ops["select:k-per-sample"] = op_select_policy
     ops["sample:SparseDrugCombo"] = op_sample_model("combo")
     ops["sample:SparseDrugComboInteraction"] = op_sample_model("interaction")
+    ops["sample:variational-stub"] = op_sample_vi_stub
     ops["cli:prepare_retrospective_simulation"] = cli_prepare(False)
     ops["cli:prepare_retrospective_simulation+initial"] = cli_prepare(True)
     ops["cli:train_model:SparseDrugCombo"] = cli_train("SparseDrugCombo")
